@@ -432,6 +432,16 @@ func checkC07(c *Ctx) {
 			add("info", strings.ReplaceAll(shape, "U", use))
 		}
 	}
+	// 2e. an extension whose earlier argument is an outer variable that a later argument deletes, rebinds or increments
+	for _, ext := range []string{"min", "max", "json_go", "sprintf", "join", "split", "pow", "atan2", "regsub", "trim", "runes", "int", "type", "json", "str", "printf"} {
+		for _, second := range []string{"del(x)", "x = 5", "++x", "x = nil", "(func() {del(x); 1})()", "catch(del(x)).err", "[del(x)]"} {
+			for _, init := range []string{"[1]", "3", `"s"`, "2.5", "{1: 2}"} {
+				add("extref", fmt.Sprintf("x = %s; g = func() {%s(x, %s)}; g(); x", init, ext, second))
+				add("extref", fmt.Sprintf("x = %s; g = func() {y = x; %s(x, %s, x)}; g()", init, ext, second))
+				add("extref", fmt.Sprintf("x = %s; %s(x, %s)", init, ext, second))
+			}
+		}
+	}
 	// 3. wild untyped programs
 	nw := c.Pick(3000, 60000)
 	for i := 0; i < nw; i++ {
